@@ -5,7 +5,7 @@
    protocol, for every schedule of any number of clients. *)
 From Coq Require Import List NArith.
 From Coq.Strings Require Import Byte.
-From GI Require Import Gen.LockedFileConsts LockedFile.LockedFile LockedFile.LockBasics LockedFile.LockProofs.
+From GI Require Import Gen.LockedFileConsts LockedFile.LockedFile LockedFile.LockBasics LockedFile.LockProofs LockedFile.MutexFacts.
 Import ListNotations.
 
 Theorem C06_write_flags_exclusive : forall flags,
@@ -85,3 +85,34 @@ Theorem C06_open_flags_stripped : forall flags,
   accmode (strip flags openfile_strip_mask) = accmode flags.
 Proof. exact open_flags_stripped. Qed.
 Print Assumptions C06_open_flags_stripped.
+
+(* Mutex: the zero value / an empty path panic instead of locking "" *)
+Theorem C06_mutex_zero_value_panics : mutex_lock [] = MPanic mutex_lock_panic_msg.
+Proof. exact mutex_zero_value_panics. Qed.
+Print Assumptions C06_mutex_zero_value_panics.
+
+Theorem C06_mutex_nonempty_locks : forall path,
+  path <> [] -> mutex_lock path = MRun (prog_of_call CMutex) /\
+                lock_mode_of_flags (flags_of_call CMutex) = Some LEx.
+Proof. exact mutex_nonempty_locks. Qed.
+Print Assumptions C06_mutex_nonempty_locks.
+
+Theorem C06_mutex_at_empty_panics : mutex_at [] = inr mutexat_panic_msg.
+Proof. exact mutex_at_empty_panics. Qed.
+Print Assumptions C06_mutex_at_empty_panics.
+
+Theorem C06_mutex_creates_lock_file :
+  has_flag mutex_flags sys_O_CREATE = true /\
+  match run_seq 0 0 (prog_of_call CMutex) no_faults 0 (os_with None) with
+  | (tr, out, s') =>
+      out = Finished ResOk /\ files s' 0 = Some [] /\ ltab s' 0 = [] /\ fds s' 0 = None /\
+      In (OFlock sys_LOCK_EX, ROk) tr
+  end.
+Proof. exact mutex_creates_lock_file. Qed.
+Print Assumptions C06_mutex_creates_lock_file.
+
+(* the files compiled on this platform are the flock(2) back end the model describes
+   (genconsts refuses to generate the constants otherwise) *)
+Theorem C06_backend_is_flock : filelock_backend_is_flock = true.
+Proof. exact backend_is_flock. Qed.
+Print Assumptions C06_backend_is_flock.
